@@ -21,7 +21,12 @@ CFGS = [("native", {}), ("native", {"SODIUM_VERIF_CPUID7_EBX_CLEAR": "0x10020"})
 def gen_random_script(rng, nhist, nops, long_lens):
     out = []
     for _ in range(nhist):
-        out.append("I %d" % rng.choice([0, 0, 1, 2, 3, 5]))
+        # initial counter: 1, just before the 2^32 wrap, or (one history in three) just before a carry into byte 1, 2 or 3 of the
+        # counter and before multiples of 2^24 - no rekey may happen there
+        if rng.randrange(3) == 0:
+            out.append("I %d" % (2 ** 32 - rng.choice([2 ** 8, 2 ** 16, 2 ** 24, 2 ** 25, 3 * 2 ** 24, 2 ** 31, 2 ** 31 + 2 ** 24, 255 * 2 ** 24]) + rng.choice([1, 2, 3, 4])))
+        else:
+            out.append("I %d" % rng.choice([0, 0, 1, 2, 3, 5]))
         nch = 0          # chunks on wire
         main = []        # wire indices of main chunks
         nxt = 0          # next main chunk to deliver
